@@ -54,6 +54,17 @@ func planFor(id string) *Plan {
 
 var plans = []Plan{
 	{
+		ID: "C02", Level: "exploration",
+		Rule: "state machine weighted to sequences of redemption attempts on live codes: foreign confidential/public client, wrong secret, redirect_uri absent/equal/different/re-encoded (trailing slash, host case, %-encoding, default port, extra query), smuggled scope/audience parameters, code ages on both sides of the (short) code lifetime, followed by the rightful attempt; Recorder asserts that a refused attempt creates no token record; per-step introspection compares every token's client/subject/scopes/audience with what consent granted. Non-trivial: a rightful redemption after >=1 refused attempt, or a refused attempt in a history with smuggled parameters.",
+		Jobs: []Job{{Test: "TestC02_CodeBinding", Shards: [2]int{16, 16}, Checks: [2]int{120, 3000}, Steps: [2]int{30, 60}, Timeout: [2]int{600, 3000}}},
+	},
+	{
+		ID: "C03", Level: "exploration",
+		Rule: "for one code: generated enforcement configuration (off/public/all x plain on/off), public/confidential client, code and hybrid response types, challenge present/absent, method S256/plain/''/unknown, then a sequence of 1-6 redemption attempts drawn from {no verifier, wrong, 42 chars, 129 chars, illegal character, verifier for the other method, the challenge string itself, correct} in any order followed by the decisive correct attempt; oracle: RFC 7636 reference (well-formedness + transformation) decides every attempt independently of earlier ones. Non-trivial: at least one failed attempt before the decisive one (or an authorization request the policy must refuse); distinct by configuration and attempt-kind sequence.",
+		Jobs: []Job{{Test: "TestC03_PKCE", Shards: [2]int{16, 16}, Checks: [2]int{400, 10000}, Timeout: [2]int{600, 3000}}},
+	},
+
+	{
 		ID: "C01", Level: "exploration",
 		Rule: "rapid state machine over authorize/redeem/refresh/revoke/password/advance on a real in-process provider (reference MemoryStore and a contract-following transactional store, HMAC and JWT access tokens, three refresh-scope configurations, plain and hybrid codes, three clients); after every step every token ever received is introspected and compared with a reference model transcribed from the statement. Non-trivial: the history replays a successfully redeemed code (single refusal reason); distinct by the sequence of (action, refusal-reason) kinds.",
 		Jobs: []Job{{Test: "TestC01_CodeSingleUse", Shards: [2]int{16, 16}, Checks: [2]int{120, 3000}, Steps: [2]int{30, 60}, Timeout: [2]int{600, 3000}}},
